@@ -183,11 +183,19 @@ func init() {
 			c, vc := newVClient(x, ClientMode_OnDemand, nil, true)
 			done := 0
 			results := []string{}
+			clock, closedAt := 0, -1 // logical clock: the threads are cooperative, so assignment order is real order
+			okAfterClose := ""
 			for i := 0; i < 2; i++ {
 				i := i
 				vsched.GoNamed(fmt.Sprintf("caller%d", i), func() {
 					defer func() { done++ }()
+					clock++
+					startedAt := clock
 					ch, st := c.Channel(async.NoContext())
+					clock++
+					if st.OK() && closedAt >= 0 && clock > closedAt && startedAt < closedAt {
+						okAfterClose = fmt.Sprintf("caller%d: Channel() called at t=%d returned OK at t=%d, Close had returned at t=%d", i, startedAt, clock, closedAt)
+					}
 					if !st.OK() {
 						results = append(results, fmt.Sprintf("caller%d:%s", i, st.Code))
 						return
@@ -200,6 +208,8 @@ func init() {
 			closed := false
 			vsched.GoNamed("closer", func() {
 				c.Close()
+				clock++
+				closedAt = clock
 				c.Close() // idempotent
 				closed = true
 			})
@@ -207,6 +217,9 @@ func init() {
 			vsched.WaitIdle("quiesce")
 			// pending calls: completed, failed with the scripted dial error, or a CLOSED status (never 'cancelled':
 			// the caller's own context was not cancelled, the client was closed)
+			if okAfterClose != "" {
+				x.Fail("a call pending at Close returns OK after Close has returned", "%s", okAfterClose)
+			}
 			for _, r := range results {
 				if contains(r, ":cancelled") {
 					x.Fail("a call pending at Close returns 'cancelled' instead of a closed status", "%v", results)
